@@ -1,6 +1,7 @@
 package sio
 
 import (
+	"github.com/karagenc/socket.io-go/internal/vhook"
 	"fmt"
 	"reflect"
 	"time"
@@ -107,13 +108,17 @@ func newAckHandlerWithTimeout(f any, timeout time.Duration, timeoutFunc func()) 
 	}
 	go func() {
 		time.Sleep(timeout)
+		vhook.Yield("ack.timer.beforeLock", h)
 		h.mu.Lock()
 		if h.called {
+			vhook.Event("ack.timer.decide", "h", h, "won", false)
 			h.mu.Unlock()
 			return
 		}
 		h.timedOut = true
+		vhook.Event("ack.timer.decide", "h", h, "won", true)
 		h.mu.Unlock()
+		vhook.Yield("ack.timer.beforePurge", h)
 
 		defer func() {
 			_ = recover()
@@ -132,12 +137,15 @@ func newAckHandlerWithTimeout(f any, timeout time.Duration, timeoutFunc func()) 
 }
 
 func (f *ackHandler) call(args ...reflect.Value) (err error) {
+	vhook.Yield("ack.call.beforeLock", f)
 	f.mu.Lock()
 	if f.timedOut {
+		vhook.Event("ack.call.decide", "h", f, "run", false)
 		f.mu.Unlock()
 		return nil
 	}
 	f.called = true
+	vhook.Event("ack.call.decide", "h", f, "run", true)
 	f.mu.Unlock()
 
 	defer func() {
